@@ -81,11 +81,15 @@ def correspondence(ctx):
                     sub.append((t, S.vclass(name)(t)))
                 except Exception:  # noqa: BLE001
                     pass
-        entry = [("in", lambda v, k: v in k), ("contains", lambda v, k: k.contains(v)), ("satisfies", lambda v, k: v.satisfies(k))]
+        INVTXT = {">=": "<", "<=": ">", "!=": "=", "<": ">=", ">": "<=", "=": "!="}
+        entry = [("in", lambda v, k: v in k), ("contains", lambda v, k: k.contains(v)), ("satisfies", lambda v, k: v.satisfies(k)),
+                 # the same constraint obtained by inverting its inverse, and by attr.evolve of another one
+                 ("in (constraint made by invert())", lambda v, k: v in VersionConstraint(comparator=INVTXT[k.comparator], version=k.version).invert()),
+                 ("in (constraint inverted twice)", lambda v, k: v in k.invert().invert())]
         for (sa, a) in sub:
             for (sb, b) in sub:
                 for c, f in OPF.items():
-                    for ename, ef in (entry if (len(sa) + len(sb)) % 3 == 0 else entry[:1]):
+                    for ename, ef in (entry if (len(sa) + len(sb)) % 3 == 0 else (entry[:1] + entry[3:4])):
                         try:
                             got = ef(a, VersionConstraint(comparator=TXT[c], version=b))
                             want = bool(f(a, b))
